@@ -152,54 +152,70 @@ fn run_local_max(data: &Arc<Vec<u8>>, ranges: &[(u64, usize)], use_read_at: bool
 
 /// `ranges` are in file coordinates: the file is `base` zeros followed by `data`.
 fn run_local_based(data: &Arc<Vec<u8>>, base: u64, ranges: &[(u64, usize)], use_read_at: bool, choices: &[usize], max_read: usize) -> Result<(Vec<Item>, Vec<usize>, Vec<usize>), String> {
+    let (mut per_op, alts, chosen) = run_local_ops(data, base, &[(use_read_at, ranges.to_vec())], choices, max_read)?;
+    Ok((per_op.remove(0), alts, chosen))
+}
+
+/// A sequence of operations (read_at over a list / read_chunks over a list) on ONE IoReader over one scripted file.
+fn run_local_ops(data: &Arc<Vec<u8>>, base: u64, ops: &[(bool, Vec<(u64, usize)>)], choices: &[usize], max_read: usize) -> Result<(Vec<Vec<Item>>, Vec<usize>, Vec<usize>), String> {
     let tr = Arc::new(Mutex::new(Trace { alts: vec![], chosen: vec![] }));
     let f = ScriptedFile { max_read, base, data: data.clone(), pos: 0, choices: choices.to_vec(), tr: tr.clone(), pending_armed: false };
     let mut reader = IoReader::new(f);
-    let items = catch(|| {
-        poll_to_end(async {
-            let mut items = vec![];
-            if use_read_at {
-                for &(o, s) in ranges {
-                    match reader.read_at(o, s).await {
-                        Ok(b) => items.push(Item::Bytes(b.to_vec())),
-                        Err(e) => {
-                            items.push(Item::Err(e.to_string()));
+    let mut per_op: Vec<Vec<Item>> = vec![];
+    for (use_read_at, ranges) in ops {
+        let use_read_at = *use_read_at;
+        let reader = &mut reader;
+        let items = catch(|| {
+            poll_to_end(async {
+                let mut items = vec![];
+                if use_read_at {
+                    for &(o, s) in ranges {
+                        match reader.read_at(o, s).await {
+                            Ok(b) => items.push(Item::Bytes(b.to_vec())),
+                            Err(e) => {
+                                items.push(Item::Err(e.to_string()));
+                                break;
+                            }
+                        }
+                    }
+                } else {
+                    let mut st = reader.read_chunks(ranges.iter().map(|&(o, s)| ChunkOffset::new(o, s)).collect());
+                    let mut n = 0;
+                    while let Some(r) = st.next().await {
+                        n += 1;
+                        match r {
+                            Ok(b) => items.push(Item::Bytes(b.to_vec())),
+                            Err(e) => {
+                                // the raw stream repeats errors; consumers stop at the first one
+                                items.push(Item::Err(e.to_string()));
+                                break;
+                            }
+                        }
+                        if n > ranges.len() + 2 {
+                            items.push(Item::Err("horizon: more items than ranges".into()));
                             break;
                         }
                     }
                 }
-            } else {
-                let mut st = reader.read_chunks(ranges.iter().map(|&(o, s)| ChunkOffset::new(o, s)).collect());
-                let mut n = 0;
-                while let Some(r) = st.next().await {
-                    n += 1;
-                    match r {
-                        Ok(b) => items.push(Item::Bytes(b.to_vec())),
-                        Err(e) => {
-                            // the raw stream repeats errors; consumers stop at the first one
-                            items.push(Item::Err(e.to_string()));
-                            break;
-                        }
-                    }
-                    if n > ranges.len() + 2 {
-                        items.push(Item::Err("horizon: more items than ranges".into()));
-                        break;
-                    }
-                }
-            }
-            items
-        })
-    });
-    let items = match items {
-        Err(p) => vec![Item::Err(p)],
-        Ok(Err(e)) => return Err(e),
-        Ok(Ok(i)) => i,
-    };
+                items
+            })
+        });
+        let items = match items {
+            Err(p) => vec![Item::Err(p)],
+            Ok(Err(e)) => return Err(e),
+            Ok(Ok(i)) => i,
+        };
+        let panicked = items.iter().any(|i| matches!(i, Item::Err(e) if e.starts_with("panic at")));
+        per_op.push(items);
+        if panicked {
+            break;
+        }
+    }
     let t = tr.lock().unwrap();
     if t.chosen.iter().any(|&c| c == usize::MAX) {
         return Err("replay divergence in scripted file".into());
     }
-    Ok((items, t.alts.clone(), t.chosen.clone()))
+    Ok((per_op, t.alts.clone(), t.chosen.clone()))
 }
 
 fn expected_local(data: &[u8], ranges: &[(u64, usize)]) -> Vec<Option<Vec<u8>>> {
@@ -319,6 +335,51 @@ fn local_leg(rep: &mut Report) {
         agg
     });
     rep.agg.merge(a);
+    // Operation SEQUENCES on one reader: what a caller does after a finished or a failed call. For every list, every
+    // pair of APIs and every single deviation anywhere in the two calls: the second call (the list in reverse
+    // order) must deliver its exact bytes whatever the first one met - no buffer, offset or error carried over.
+    {
+        let a = par_shards(lists.len(), threads(), |li| {
+            let mut agg = Agg::default();
+            if !thorough && li % 2 == 1 {
+                return agg;
+            }
+            let r1 = &lists_ref[li];
+            let r2: Vec<(u64, usize)> = r1.iter().rev().cloned().collect();
+            let (w1, w2) = (expected_local(data_ref, r1), expected_local(data_ref, &r2));
+            for (api1, api2) in [(false, false), (false, true), (true, false)] {
+                let ops = [(api1, r1.clone()), (api2, r2.clone())];
+                let mut stack: Vec<Vec<usize>> = vec![vec![]];
+                while let Some(prefix) = stack.pop() {
+                    let (per_op, alts, chosen) = match run_local_ops(data_ref, 0, &ops, &prefix, 0) {
+                        Ok(x) => x,
+                        Err(e) => machinery(e),
+                    };
+                    agg.add("local_sequence_executions", 1);
+                    agg.add("local_transitions", chosen.len() as u64);
+                    let detail = || json!({"leg": "local-sequence", "apis": [if api1 { "read_at" } else { "read_chunks" }, if api2 { "read_at" } else { "read_chunks" }], "file": hex(data_ref), "first_ranges": r1, "second_ranges": r2, "answers": chosen, "items": format!("{:?}", per_op)});
+                    if let Some(class) = judge_items(&per_op[0], &w1) {
+                        agg.viol(&format!("local:{class}"), detail);
+                    } else if per_op.len() < 2 {
+                        agg.viol("local:second-call:reader-panicked", detail);
+                    } else if let Some(class) = judge_items(&per_op[1], &w2) {
+                        agg.viol(&format!("local:second-call:{class}"), detail);
+                    }
+                    if prefix.iter().all(|&c| c == 0) {
+                        for i in prefix.len()..chosen.len() {
+                            for alt in 1..alts[i] {
+                                let mut p = chosen[..i].to_vec();
+                                p.push(alt);
+                                stack.push(p);
+                            }
+                        }
+                    }
+                }
+            }
+            agg
+        });
+        rep.agg.merge(a);
+    }
     // offsets beyond 2^32 (archives of disk images are routinely larger than 4 GiB): the same range
     // lists shifted behind a virtual zero prefix that ends just below / just above 2^32, every
     // single deviation from the default answers
@@ -415,6 +476,10 @@ impl HttpLab {
     /// Run read_chunks over `ranges` against the armed server; stops at the first Err like Archive::chunk_stream.
     fn read_chunks(&self, ranges: &[(u64, usize)], retries: u32) -> Vec<Item> {
         let mut reader = self.reader(retries);
+        self.read_chunks_on(&mut reader, ranges)
+    }
+    /// The same on a reader the caller keeps: a second call on one reader must not see anything of the first.
+    fn read_chunks_on(&self, reader: &mut HttpReader, ranges: &[(u64, usize)]) -> Vec<Item> {
         let r = catch(|| {
             self.rt.block_on(async {
                 let mut items = vec![];
@@ -562,7 +627,8 @@ fn http_case_based(lab: &HttpLab, base: u64, file: &[u8], ranges0: &[(u64, usize
     }
     lab.server.arm_based(base, file, Script { faults: faults.to_vec(), splits: splits.to_vec(), keep_alive: false });
     lab.pooled.set(false);
-    let items = lab.read_chunks(ranges, budget);
+    let mut reader = lab.reader(budget);
+    let items = lab.read_chunks_on(&mut reader, ranges);
     let log = lab.server.log();
     let (want_reqs, want_items) = http_model(base, file, ranges, faults, budget);
     agg.add("http_cases", 1);
@@ -579,6 +645,26 @@ fn http_case_based(lab: &HttpLab, base: u64, file: &[u8], ranges0: &[(u64, usize
         agg.viol(class, detail);
     }
     agg.distinct("http_outcomes", fnv(format!("{:?}{:?}{:?}{}", ranges, faults, splits, budget).as_bytes()));
+    // Second call on the SAME reader (what a caller does after a failed or a finished stream): the ranges in
+    // reverse list order, against whatever faults the first call left unconsumed. Nothing received, buffered or
+    // counted during the first call may show in it.
+    let n1 = log.len();
+    let ranges2: Vec<(u64, usize)> = ranges.iter().rev().cloned().collect();
+    let rest: Vec<HF> = faults.iter().skip(n1).cloned().collect();
+    let items2 = lab.read_chunks_on(&mut reader, &ranges2);
+    let log2: Vec<_> = lab.server.log().into_iter().skip(n1).collect();
+    let (want_reqs2, want_items2) = http_model(base, file, &ranges2, &rest, budget);
+    agg.add("http_second_calls_on_the_same_reader", 1);
+    let detail2 = || json!({"leg": "http", "second_call_on_same_reader": true, "file": hex(file), "zero_prefix": base, "first_ranges": ranges, "ranges": ranges2, "faults": format!("{:?}", faults), "splits": splits, "retries": budget,
+        "first_items": format!("{:?}", items), "items": format!("{:?}", items2), "requests": log2.iter().map(|l| l.range).collect::<Vec<_>>(), "expected_requests": want_reqs2});
+    if let Some(class) = judge_items(&items2, &want_items2) {
+        agg.viol(&format!("http:second-call:{class}"), detail2);
+        return;
+    }
+    let got2: Vec<Option<(u64, u64)>> = log2.iter().map(|l| l.range).collect();
+    if got2 != want_reqs2 {
+        agg.viol("http:second-call:requests-differ-from-a-fresh-reader", detail2);
+    }
 }
 
 fn http_leg(rep: &mut Report) {
